@@ -21,6 +21,7 @@ from __future__ import annotations
 import copy
 import hashlib
 import json
+import re
 from typing import Any, Dict, List, Optional, Tuple
 
 from harness.lib import scen
@@ -98,6 +99,11 @@ def _acl_lines(host: str, name: str, acl) -> List[str]:
     return out
 
 
+def _flag(v) -> str:
+    """A boolean as built: 1 / 0, or its repr when it is not a boolean."""
+    return ("1" if v else "0") if isinstance(v, bool) else repr(v)
+
+
 def _metric(m) -> str:
     return str(int(m)) if float(m) == int(m) else repr(float(m))
 
@@ -124,7 +130,8 @@ def inventory(game, cfg: Dict) -> List[str]:
                 fsd.append("-")
         out.append(f"node {h} {node._discriminator} {node.operating_state.name} sud={_num(c.start_up_duration)} sdd={_num(c.shut_down_duration)} "
                    f"scan={_num(c.node_scan_duration)} fsd={fsd[0]}/{fsd[1]} "
-                   f"dns={_o(getattr(c, 'dns_server', None))} gw={_o(getattr(c, 'default_gateway', None))}")
+                   f"dns={_o(getattr(c, 'dns_server', None))} gw={_o(getattr(c, 'default_gateway', None))} "
+                   f"flags={_flag(c.revealed_to_red)}/{_num(c.start_up_countdown)}/{_num(c.shut_down_countdown)}/{_flag(c.is_resetting)}")
         for num, nic in node.network_interface.items():
             ip = getattr(nic, "ip_address", None)
             mask = getattr(nic, "subnet_mask", None)
@@ -270,7 +277,10 @@ def live_readings(sw, k: str) -> Dict[str, str]:
             out["live"] = "<unset>" if v is None else tok(v)
         if k != "listen_on_ports":
             if k in type(sw.config).model_fields:
-                out["config"] = tok(getattr(sw.config, k))
+                cv = getattr(sw.config, k)
+                # an integer field that holds something that is not an integer (a quoted '4' stored as text) is not the declared 4
+                strict_int = type(sw.config).model_fields[k].annotation is int and not (isinstance(cv, int) and not isinstance(cv, bool))
+                out["config"] = ("<not-an-int>" + repr(cv)) if strict_int else tok(cv)
             if k in type(sw).model_fields:
                 out["attr"] = tok(getattr(sw, k))
     except Exception as e:  # a reader that raises is a difference, not a crash of the rig
@@ -360,6 +370,44 @@ def options_oracle(game, cfg: Dict) -> List[str]:
     return bad
 
 
+def agents_oracle(game, cfg: Dict) -> List[str]:
+    """Parts of `agents:` that are outside the Lean model, as declared-vs-built facts: a `custom` observation space is built with
+    exactly the declared component labels (and its gym space has exactly those keys); every declared `shared-reward` component
+    names the declared agent, has its callback, and the reward calculation order lists every agent once with the agent whose
+    reward is shared BEFORE the one that uses it."""
+    bad = []
+    order = list(getattr(game, "_reward_calculation_order", []) or [])
+    refs = [a.get("ref") for a in cfg.get("agents") or []]
+    if order and sorted(order) != sorted(refs):
+        bad.append(f"agents reward-order built={order} declared={refs}")
+    for a in cfg.get("agents") or []:
+        ag = game.agents.get(a.get("ref"))
+        if ag is None:
+            bad.append(f"agents missing {a.get('ref')}")
+            continue
+        ob = a.get("observation_space") or {}
+        if ob.get("type") == "custom":
+            want = [c.get("label") for c in (ob.get("options") or {}).get("components") or []]
+            comps = getattr(ag.observation_manager.obs, "components", None)
+            got = list(comps.keys()) if isinstance(comps, dict) else None
+            if got is not None and got != want:
+                bad.append(f"agents observation-components {a['ref']} built={got} declared={want}")
+            sp = getattr(ag.observation_manager.space, "spaces", None)
+            if sp is not None and sorted(sp.keys()) != sorted(want):
+                bad.append(f"agents observation-space-keys {a['ref']} built={sorted(sp.keys())} declared={sorted(want)}")
+        for i, d in enumerate((a.get("reward_function") or {}).get("reward_components") or []):
+            if d.get("type") in ("shared-reward", "SHARED_REWARD"):
+                comp = ag.reward_function.reward_components[i][0]
+                tgt = (d.get("options") or {}).get("agent_name")
+                if getattr(comp.config, "agent_name", None) != tgt:
+                    bad.append(f"agents shared-reward {a['ref']} {i} built={getattr(comp.config, 'agent_name', None)} declared={tgt}")
+                if not callable(getattr(comp, "callback", None)):
+                    bad.append(f"agents shared-reward-callback {a['ref']} {i} unset")
+                if order and tgt in order and a["ref"] in order and order.index(tgt) > order.index(a["ref"]):
+                    bad.append(f"agents shared-reward-order {a['ref']} evaluated before {tgt}")
+    return bad
+
+
 def files_extra(game, cfg: Dict) -> List[str]:
     """Folders/files that exist although the file does not declare them (created by software installs); evidence only."""
     decl = {n["hostname"]: n for n in cfg.get("simulation", {}).get("network", {}).get("nodes", [])}
@@ -394,6 +442,11 @@ def _rule_line(aclname: str, pos, r: Dict) -> str:
     dip = r["dst_ip"] if "dst_ip" in r else r.get("dst_ip_address")
     return (f"acl {aclname} {int(pos)} {r['action']} {pr} {_ipt(sip)} {_ipt(r.get('src_wildcard_mask'))} "
             f"{_ipt(dip)} {_ipt(r.get('dst_wildcard_mask'))} {sp} {dp}")
+
+
+def _dur(v) -> str:
+    """A duration key of the file as the schema reads it: absent -> '-', otherwise the integer the value means ('0', 0.0, False -> 0)."""
+    return "-" if v is None else str(int(v))
 
 
 def _state(v) -> str:
@@ -433,22 +486,30 @@ def scenario_lines(cfg: Dict) -> List[str]:
     if set(d) - set(dkeys):
         raise Unmodelled(f"defaults keys {sorted(set(d) - set(dkeys))}")
     if d:
-        lines.append("defaults " + " ".join(_o(d.get(k)) for k in dkeys))
+        lines.append("defaults " + " ".join(_dur(d.get(k)) for k in dkeys))
     for n in net.get("nodes") or []:
         t = n["type"]
         if t not in MODELLED_NODE_TYPES:
             raise Unmodelled(f"node type {t}")
         known = {"hostname", "type", "operating_state", "start_up_duration", "shut_down_duration", "dns_server", "default_gateway",
                  "ip_address", "subnet_mask", "network_interfaces", "services", "applications", "users", "folders", "num_ports", "ports",
-                 "acl", "routes", "default_route", "router_interface", "wireless_access_point"}
+                 "acl", "routes", "default_route", "router_interface", "wireless_access_point", "node_scan_duration",
+                 "revealed_to_red", "start_up_countdown", "shut_down_countdown", "is_resetting"}
         if t == "wireless-router" and (n.get("ports") or n.get("num_ports")):
             raise Unmodelled("wireless router with wired ports")
         extra = set(n) - known
         if extra:
             raise Unmodelled(f"node keys {sorted(extra)}")
-        lines.append(f"node {t} {tok(n['hostname'])} {_state(n.get('operating_state'))} {_o(n.get('start_up_duration'))} "
-                     f"{_o(n.get('shut_down_duration'))} {_ipt(n.get('dns_server'))} {_ipt(n.get('default_gateway'))} "
+        lines.append(f"node {t} {tok(n['hostname'])} {_state(n.get('operating_state'))} {_dur(n.get('start_up_duration'))} "
+                     f"{_dur(n.get('shut_down_duration'))} {_ipt(n.get('dns_server'))} {_ipt(n.get('default_gateway'))} "
                      f"{_ipt(n.get('ip_address'))} {_ipt(n.get('subnet_mask'))} {_o(n.get('num_ports'))}")
+        if "node_scan_duration" in n:
+            lines.append(f"nodescan {int(n['node_scan_duration'])}")
+        if any(k in n for k in ("revealed_to_red", "start_up_countdown", "shut_down_countdown", "is_resetting")):
+            import pydantic
+            rb = lambda k: 1 if pydantic.TypeAdapter(bool).validate_python(n.get(k, False)) else 0   # the value as a bool field reads it
+            ri = lambda k: pydantic.TypeAdapter(int).validate_python(n.get(k, 0))
+            lines.append(f"nodeflags {rb('revealed_to_red')} {ri('start_up_countdown')} {ri('shut_down_countdown')} {rb('is_resetting')}")
         if t == "firewall":
             for k, v in (n.get("ports") or {}).items():
                 lines.append(f"fwport {k} {v['ip_address']} {_ipt(v.get('subnet_mask'))}")
@@ -503,7 +564,7 @@ def scenario_lines(cfg: Dict) -> List[str]:
                      f"{'-' if 'include_router' not in ns else (1 if ns['include_router'] else 0)} {_o(ns.get('bandwidth'))}")
     for l in net.get("links") or []:
         lines.append(f"link {tok(l['endpoint_a_hostname'])} {l['endpoint_a_port']} {tok(l['endpoint_b_hostname'])} {l['endpoint_b_port']} "
-                     f"{_o(l.get('bandwidth'))}")
+                     f"{_o(l.get('bandwidth') if not isinstance(l.get('bandwidth'), float) or l['bandwidth'] != int(l['bandwidth']) else int(l['bandwidth']))}")
     for a in cfg.get("agents") or []:
         lines.append(f"agent {tok(a['ref'])} {a['type']} {_o(a.get('team'))}")
         for i, e in ((a.get("action_space") or {}).get("action_map") or {}).items():
@@ -566,6 +627,34 @@ def _settings_schema(agent_type: str):
         return cls.ConfigSchema.model_fields["agent_settings"].annotation
     except Exception:
         return None
+
+
+_UUID = re.compile(r"[0-9a-f]{8}-[0-9a-f]{4}-[0-9a-f]{4}-[0-9a-f]{4}-[0-9a-f]{12}")
+_MAC = re.compile(r"\b[0-9a-f]{2}(:[0-9a-f]{2}){5}\b")
+
+
+def state_digest(game, text_out: Optional[List[str]] = None) -> str:
+    """`simulation.describe_state()` in canonical form: uuids and MAC addresses (fresh per build) masked, entries that are keyed by a
+    uuid turned into a sorted list, numbers as written. Two builds of the same file give the same text."""
+    import hashlib
+
+    def canon(o):
+        if isinstance(o, dict):
+            if o and all(isinstance(k, str) and (_UUID.fullmatch(k) or _MAC.fullmatch(k)) for k in o):
+                return sorted((canon(v) for v in o.values()), key=lambda x: json.dumps(x, sort_keys=True, default=str))
+            return {str(k): canon(v) for k, v in o.items()}
+        if isinstance(o, (list, tuple, set, frozenset)):
+            xs = [canon(v) for v in o]
+            return sorted(xs, key=lambda x: json.dumps(x, sort_keys=True, default=str)) if isinstance(o, (set, frozenset)) else xs
+        if isinstance(o, str):
+            return _MAC.sub("MAC", _UUID.sub("U", o))
+        if isinstance(o, float):
+            return repr(o)
+        return o if isinstance(o, (int, bool)) or o is None else _MAC.sub("MAC", _UUID.sub("U", str(o)))
+    text = json.dumps(canon(game.simulation.describe_state()), sort_keys=True, default=str)
+    if text_out is not None:
+        text_out.append(text)
+    return hashlib.sha256(text.encode()).hexdigest()[:16] + ":" + str(len(text))
 
 
 def split_inventory(line: str) -> List[str]:
